@@ -8,7 +8,7 @@ export GOFLAGS=-mod=mod GOPROXY=off GOSUMDB=off GOTOOLCHAIN=local
 filter="$1"; fail=0; n=0
 runone() { # patch prop expect
   S=/var/tmp/selftest-$$; rm -rf $S; rsync -a --exclude .git /repo/ $S/
-  if ! (cd $S && patch -p1 -s < "$1" >/dev/null 2>&1); then echo "SKIP (patch does not apply) $1"; rm -rf $S; return; fi
+  if ! (cd $S && patch -p1 -s < "$1" >/dev/null 2>&1); then echo "SKIP (patch does not apply) $1"; rm -rf $S; fail=1; return; fi
   out=$(bin/govc check -repo $S -no-evidence -replays /var/tmp/selftest-replays-$$ $2 quick 2>&1); rc=$?
   rm -rf $S /var/tmp/selftest-replays-$$
   n=$((n+1))
